@@ -15,7 +15,7 @@ META = dict(
                 "flags symbolic; every alternative winner. Per path: the tree has an unpruned leaf iff some complete elimination order ending "
                 "in that candidate is contradicted by no assertion (the n!/n orders are written out in z3); every pruned node carries exactly "
                 "the assertions contradicting it; treeListToTuple prints the warning exactly on untagged leaves.",
-    bounds={"quick": {"candidates": 3, "assertions": "<= 3"}, "thorough": {"candidates": "3 (K <= 4), 4 (K <= 3)"}},
+    bounds={"quick": {"candidates": 3, "assertions": "<= 3"}, "thorough": {"candidates": "3 (K <= 4), 4 (K <= 2)"}},
     outside=["more candidates/assertions than the bound", "parseAssertions (JSON layouts)", "svg drawing"],
     assumptions=["documented form of an assertion: winner != loser; a not-eliminated-next assertion's candidate is not in its eliminated set "
                  "and at least one other candidate is still standing", "assertions of one kind are pairwise distinct (tags are positions in the list)"],
@@ -117,13 +117,18 @@ class SymSet:
 
 def cells(tier):
     out = []
-    grid = [(3, 1), (3, 2), (3, 3)] if tier == "quick" else [(3, 2), (3, 3), (3, 4), (4, 2), (4, 3)]
+    grid = [(3, 1), (3, 2), (3, 3)] if tier == "quick" else [(3, 2), (3, 3), (3, 4), (4, 2)]
     for NC, K in grid:
         for alt in range(NC):
             for kinds in itertools.product((True, False), repeat=K):      # True = not-eliminated-before
                 if list(kinds) != sorted(kinds, reverse=True):
                     continue        # the two lists are separate in the API: order between kinds is irrelevant
-                out.append(dict(NC=NC, K=K, alt=alt, kinds=list(kinds)))
+                if K >= 3:
+                    # partition the work by the first assertion's candidate (the union of the cells is the whole space)
+                    for a0 in range(NC):
+                        out.append(dict(NC=NC, K=K, alt=alt, kinds=list(kinds), a0=a0))
+                else:
+                    out.append(dict(NC=NC, K=K, alt=alt, kinds=list(kinds)))
     return out
 
 
@@ -143,6 +148,8 @@ def run_cell(cell):
             pr = z3.Bool(f"proved{k}")
             neb = cell["kinds"][k]
             ex.assume(z3.And(a >= 0, a < NC))
+            if k == 0 and cell.get("a0") is not None:
+                ex.assume(a == cell["a0"])
             if neb:
                 ex.assume(z3.And(b >= 0, b < NC, a != b))
                 WOL.append((SymCand(a), SymCand(b), SB(pr)))        # (loser, winner, proved): `winner` cannot be eliminated before `loser`
